@@ -11,7 +11,8 @@
 //	inbound_test.go  the real gater behind the real upgrader over in-memory conns (inbound)
 //	quic_test.go     the QUIC and WebTransport transports' own gating call sites over simnet, under both
 //	                 ConnManager configurations (bare / scope opened at accept as in libp2p.New)
-//	witness_test.go  minimal deterministic witnesses of the two defects found
+//	webrtc_test.go   the WebRTC-direct listener's own gating call site over real loopback UDP behind an address translator
+//	witness_test.go  minimal deterministic witnesses of the defects found
 package c10
 
 import (
@@ -45,6 +46,8 @@ func TestMain(m *testing.M) {
 			"a gater reopened on the newest snapshot (call in flight may go either way) and, on 'reopen', a gater reopened on the final datastore are compared with a reference "+
 			"model (set of rules whose call returned success) through ListBlocked* and all Intercept* hooks for probe remotes in every address form "+
 			"(/ip4, /ip6, /ip6/::ffff:a.b.c.d in three spellings, ip6zone, first/last address of each subnet and the neighbours just outside, IP-less addresses, several transport suffixes). "+
+			"Rules are values: after a Block*/Unblock* call of an address or subnet returned, the caller (generated, in every test of this package) overwrites the IP bytes or the mask bytes of the net.IP / *net.IPNet it passed, "+
+			"or re-uses its IPNet variable for another subnet of the pool, and after every comparison it overwrites every value ListBlockedAddrs / ListBlockedSubnets returned; the model keeps what the arguments said at the time of the call. "+
 			"(b) the real gater (optionally reopened from its datastore) inside a real swarm over scripted transports with a fake DNS resolver; every outbound attempt is started, with no connection "+
 			"to the peer in place, through a generated entry point: Network.DialPeer, Network.NewStream (the swarm's implicit dial) and, in a third of the cases, Connect / NewStream of a real BasicHost "+
 			"built on that swarm (the scripted remotes answer multistream for one probe protocol, 'na' to identify); every recorded transport dial, the result of the starting call (error, or the "+
@@ -57,6 +60,10 @@ func TestMain(m *testing.M) {
 			"of libp2p.New's default ConnManager that opens the resource-manager scope when the QUIC connection is accepted (the listeners then find the scope in the connection context); "+
 			"per attempt the gated swarm's ConnsToPeer/Connected, the result of the starting call (outbound: Network.DialPeer or Network.NewStream's implicit dial, generated) and the remote's view "+
 			"(no inbound connection from a gated dial; no connection left open from a refused inbound one) are audited. "+
+			"The WebRTC-direct transport's own inbound call site (listener.handleCandidate) runs with the real transport on both sides over real loopback UDP (/ip4/127.0.0.1 or /ip6/::1) in real time, a small number of cases: "+
+			"the gated listener's socket is wrapped in an address translator (as a NAT in front of the dialer) that presents each attempt's datagrams with a generated source IP of the pool (IPv4 as 4 or 16 bytes), so the remote address differs from the listener's own; "+
+			"an attempt is decided by an event, never by elapsed time: the gated swarm's Connected notification, or a refusal the real gater returned at the listener's call site (recorded by a wrapper); blocked = never admitted (address/subnet: refused at InterceptAccept), "+
+			"free = admitted with the translated source as remote address and no refusal. "+
 			"Per history every crash point is enumerated (one snapshot per applied write); histories, faults and remotes are sampled. "+
 			"Non-trivial = a probed/dialled/accepted remote matches a rule in force through a non-canonical form (mapped spelling, 16-byte rule vs 4-byte remote, subnet rule hit at an edge address, "+
 			"resolved DNS name) or the case contains a reopen on a non-empty rule set; distinct = distinct (pool, op history, attempts).",
@@ -66,7 +73,10 @@ func TestMain(m *testing.M) {
 		"masks that are not CIDR prefixes are generated rarely (net.IPNet allows them, Contains honours them; known finding "+kfMask+" removes them from the generator while listed as known)",
 		"whether an IPv6 subnet shorter than /96 that covers ::ffff:0:0/96 (e.g. ::/0) matches IPv4 remotes is left unspecified; all textual forms of one IP must still agree",
 		"IP values have length 4 or 16; a Block*/Unblock* call that returns an error leaves the model unchanged whatever the reason",
-		"inbound forms are those a net.Addr can produce plus hand-built /ip6/::ffff: multiaddrs; the WebRTC listener's own call site is not driven",
+		"inbound forms are those a net.Addr can produce plus hand-built /ip6/::ffff: multiaddrs",
+		"WebRTC-direct: needs loopback UDP sockets (test skipped without them; IPv6 cases run over IPv4 when ::1 is missing, labelled); real time only bounds the wait for the deciding event (20 s, then the attempt is labelled inconclusive and gives no verdict); "+
+			"after a refusal the dialer is left running 300 ms (its retransmissions are fresh candidates) before admission is read; the WebRTC dialer's InterceptSecured call site and outbound WebRTC dials are not driven",
+		"the datastore double copies the value during Put, as a datastore that persists does (BlockAddr hands its caller's buffer to Put; MapDatastore would keep that slice)",
 		"the scope-at-accept ConnManager configuration copies the ConnContext function of config/config.go over a NullResourceManager (a full libp2p.New host is not built); VerifySourceAddress and metrics options are left out",
 		"a relay (p2p-circuit) address names the relay's IP: as an outbound candidate it is judged like a direct address of that IP (the dial opens or re-uses a connection with it: "+
 			"InterceptAddrDial refuses it, the swarm neither hands it to the relay transport nor reports it dialable); as the remote address of an inbound connection it may or may not be refused (the remote is the peer behind the relay)",
@@ -370,8 +380,9 @@ func (st *subState) mixed() bool { return (len(st.texts) > 0) != st.lastBlock }
 
 // Known findings of C10 (see witness_test.go).
 const (
-	kfHostBits = "C10-subnet-unblock-other-spelling"
-	kfMask     = "C10-noncidr-mask-breaks-reopen"
+	kfHostBits  = "C10-subnet-unblock-other-spelling"
+	kfMask      = "C10-noncidr-mask-breaks-reopen"
+	kfListAlias = "C10-listed-subnet-aliases-rule"
 )
 
 // relaxedUsed counts verdicts that were relaxed because of kfHostBits (per process;
@@ -516,6 +527,51 @@ type op struct {
 	form  int
 	noise [16]byte
 	fail  bool // the datastore refuses the write of this call
+	// what the caller does, right after the call returned, with the net.IP / *net.IPNet value it passed
+	// (a rule is what the arguments said at the time of the call)
+	scribble int
+	scr      [16]byte
+}
+
+// The caller's treatment of its own argument after a Block*/Unblock* call returned.
+const (
+	scNone      = iota
+	scIPBytes   // overwrites the bytes of the IP it passed (address rules: the net.IP; subnet rules: IPNet.IP)
+	scMaskBytes // subnet rules: overwrites the bytes of IPNet.Mask with another prefix mask (address rules: as scIPBytes)
+	scReuse     // subnet rules: stores another subnet of the pool in the same IPNet variable, *n = other (address rules: as scIPBytes)
+	nScribbles
+)
+
+var scribbleNames = [...]string{"", "overwrites the IP bytes of its argument", "overwrites the mask bytes of its argument", "re-uses its IPNet variable for another subnet"}
+
+func scribbleIP(ip net.IP, scr [16]byte) {
+	for i := range ip {
+		ip[i] ^= scr[i] | 1 // every byte changes
+	}
+}
+
+// scribbleNet: the caller changes the IPNet it passed, in place.
+func (o op) scribbleNet(n *net.IPNet, w *world) {
+	switch o.scribble {
+	case scIPBytes:
+		scribbleIP(n.IP, o.scr)
+	case scMaskBytes:
+		// another prefix length (the value stays a well-formed CIDR network)
+		ones, bits := n.Mask.Size()
+		if bits == 0 {
+			scribbleIP(net.IP(n.Mask), o.scr)
+			return
+		}
+		copy(n.Mask, net.CIDRMask((ones+1+int(o.scr[0]))%(bits+1), bits))
+	case scReuse:
+		other := w.subs[(o.idx+1+int(o.scr[0]))%len(w.subs)]
+		if other.semKey() == w.subs[o.idx].semKey() {
+			scribbleIP(n.IP, o.scr)
+			return
+		}
+		m, _ := other.ipnet(sfCanon, o.scr)
+		*n = *m
+	}
 }
 
 func (o op) describe(w *world) string {
@@ -532,7 +588,11 @@ func (o op) describe(w *world) string {
 	if o.fail {
 		s += " [datastore write fails]"
 	}
-	return s + ")"
+	s += ")"
+	if o.scribble != scNone {
+		s += "; the caller then " + scribbleNames[o.scribble]
+	}
+	return s
 }
 
 // call performs the operation on the gater.
@@ -542,16 +602,28 @@ func (o op) call(g *conngater.BasicConnectionGater, w *world) error {
 		return g.BlockPeer(w.peers[o.idx])
 	case opUnblockPeer:
 		return g.UnblockPeer(w.peers[o.idx])
-	case opBlockAddr:
-		return g.BlockAddr(w.ruleIPs[o.idx].netIP(o.form))
-	case opUnblockAddr:
-		return g.UnblockAddr(w.ruleIPs[o.idx].netIP(o.form))
-	case opBlockSubnet:
-		n, _ := w.subs[o.idx].ipnet(o.form, o.noise)
-		return g.BlockSubnet(n)
+	case opBlockAddr, opUnblockAddr:
+		ip := w.ruleIPs[o.idx].netIP(o.form)
+		var err error
+		if o.kind == opBlockAddr {
+			err = g.BlockAddr(ip)
+		} else {
+			err = g.UnblockAddr(ip)
+		}
+		if o.scribble != scNone {
+			scribbleIP(ip, o.scr)
+		}
+		return err
 	default:
 		n, _ := w.subs[o.idx].ipnet(o.form, o.noise)
-		return g.UnblockSubnet(n)
+		var err error
+		if o.kind == opBlockSubnet {
+			err = g.BlockSubnet(n)
+		} else {
+			err = g.UnblockSubnet(n)
+		}
+		o.scribbleNet(n, w)
+		return err
 	}
 }
 
@@ -832,6 +904,16 @@ func drawOp(rt *rapid.T, w *world, m *model, failProb int) op {
 	if failProb > 0 && rapid.IntRange(0, 99).Draw(rt, "fail") < failProb {
 		o.fail = true
 	}
+	if o.kind >= opBlockAddr {
+		// value semantics: the rule is what the argument said when the call was made; afterwards the
+		// caller does what it likes with the value it passed
+		if o.scribble = rapid.SampledFrom([]int{scNone, scNone, scIPBytes, scMaskBytes, scReuse}).Draw(rt, "argAfterCall"); o.scribble != scNone {
+			if o.kind < opBlockSubnet {
+				o.scribble = scIPBytes
+			}
+			o.scr = drawBytes(rt, 16, "scribble")
+		}
+	}
 	return o
 }
 
@@ -880,6 +962,22 @@ type obs struct {
 	noncanonBlocked, edgeBlocked, edgeFree, unspecified, ambiguous bool
 	relayBlocked                                                   bool // a circuit address through a blocked relay IP was refused for dialling
 	blockedProbes, freeProbes, refusedCalls                        int
+	listsScribbled                                                 bool            // a non-empty ListBlocked* result was overwritten by the caller
+	scribbles                                                      map[string]bool // what callers did with their arguments after a call (labels)
+}
+
+func (o *obs) noteScribble(op op, ok bool) {
+	if op.scribble == scNone {
+		return
+	}
+	if o.scribbles == nil {
+		o.scribbles = map[string]bool{}
+	}
+	res := "ok"
+	if !ok {
+		res = "error"
+	}
+	o.scribbles["caller "+scribbleNames[op.scribble]+" after "+opNames[op.kind]+"->"+res] = true
 }
 
 // checkGater compares g with every model state between lo and hi (lo == hi: exact).
@@ -907,7 +1005,8 @@ func checkGater(f failer, what string, g *conngater.BasicConnectionGater, w *wor
 		f.Fatalf("%s: ListBlockedPeers lists peers that were never blocked: %v", what, gotPeers)
 	}
 	gotAddrs := map[nip]int{}
-	for _, ip := range g.ListBlockedAddrs() {
+	listedAddrs := g.ListBlockedAddrs()
+	for _, ip := range listedAddrs {
 		a, ok := normalize(ip)
 		if !ok {
 			f.Fatalf("%s: ListBlockedAddrs returned an invalid IP %v", what, []byte(ip))
@@ -945,7 +1044,8 @@ func checkGater(f failer, what string, g *conngater.BasicConnectionGater, w *wor
 		}
 	}
 	gotSubs := map[string]bool{}
-	for _, n := range g.ListBlockedSubnets() {
+	listedSubs := g.ListBlockedSubnets()
+	for _, n := range listedSubs {
 		s, ok := subOfIPNet(n)
 		if !ok {
 			f.Fatalf("%s: ListBlockedSubnets returned an unusable IPNet %v", what, n)
@@ -977,6 +1077,16 @@ func checkGater(f failer, what string, g *conngater.BasicConnectionGater, w *wor
 	if len(gotSubs) != 0 {
 		f.Fatalf("%s: ListBlockedSubnets lists subnets that were never blocked: %v", what, gotSubs)
 	}
+	// the caller owns what the List* calls returned: it overwrites the values; the hooks below and every
+	// later comparison must see the rules unchanged
+	for _, ip := range listedAddrs {
+		scribbleIP(ip, [16]byte{})
+	}
+	for _, n := range listedSubs {
+		scribbleIP(n.IP, [16]byte{})
+		scribbleIP(net.IP(n.Mask), [16]byte{})
+	}
+	o.listsScribbled = o.listsScribbled || len(listedAddrs)+len(listedSubs) > 0
 
 	// ---- hooks
 	type seen struct {
